@@ -3,6 +3,7 @@ package main
 import (
 	"fmt"
 	"go/ast"
+	"go/constant"
 	"go/token"
 	"go/types"
 	"strings"
@@ -45,6 +46,7 @@ func runC19(c *Ctx, r *Report) {
 		}
 	}
 	c19Selection(c, r)
+	c19VersionParsing(c, r)
 	r.set("generator_functions", nFuncs)
 	r.set("map_ranges", n)
 	r.need("map ranges in the generator", n, 6)
@@ -508,4 +510,59 @@ func c19Selection(c *Ctx, r *Report) {
 	r.set("string_slice_element_stores", nStores)
 	r.set("pointer_map_lookups", nLookups)
 	r.ok("C19-R2-selection-readonly", "scan", "", fmt.Sprintf("%d stores into []string elements in the generator: none into the example column", nStores))
+}
+
+// c19VersionParsing: the SDK version requested through a zip file name is the file name minus
+// ".zip" and the "FitSDKRelease_" prefix, nothing else (decided on the function's path terms), and
+// no Trim/TrimLeft/TrimRight in the command or the generator is given a multi-character cutset
+// (a set of characters, not a suffix: TrimRight("21.40.00", ".0") is "21.4").
+func c19VersionParsing(c *Ctx, r *Report) {
+	mp := c.pkgs[mainPath]
+	if mp == nil {
+		r.fail("C19-R2-version", "main", "", "cmd/fitgen not loaded")
+		return
+	}
+	if fn := c.ssaFn(c.fn(mp, "parseSDKVersionStringFromZipFilePath")); fn != nil {
+		o := symPaths(fn, nil, 2)
+		want := `(call strings.TrimPrefix (call strings.TrimSuffix (ext1 (call filepath.Split p0)) ".zip") "FitSDKRelease_")`
+		ok := o.why == "" && len(o.paths) == 1 && len(o.paths[0].rets) == 1 && o.paths[0].rets[0] == want
+		got := o.why
+		if len(o.paths) > 0 && len(o.paths[0].rets) > 0 {
+			got = o.paths[0].rets[0]
+		}
+		r.check(ok, "C19-R2-version", "parseSDKVersionStringFromZipFilePath", c.pos(fn.Pos()), "version string = base name minus .zip and FitSDKRelease_", "the SDK version taken from the zip file name is not `TrimPrefix(TrimSuffix(base, \".zip\"), \"FitSDKRelease_\")`: "+got+" — the declared SDK version can differ from the requested one")
+	} else {
+		r.fail("C19-R2-version", "parseSDKVersionStringFromZipFilePath", "", "not found")
+	}
+	n := 0
+	for _, fn := range c.moduleFuncs() {
+		if pp := fnPkgPath(fn); pp != mainPath && pp != genPath && pp != strPath {
+			continue
+		}
+		for _, ci := range allCalls(fn) {
+			f := ci.Common().StaticCallee()
+			if f == nil || f.Pkg == nil || f.Pkg.Pkg.Path() != "strings" {
+				continue
+			}
+			switch f.Name() {
+			case "Trim", "TrimLeft", "TrimRight":
+			default:
+				continue
+			}
+			n++
+			k, ok := ci.Common().Args[1].(*ssa.Const)
+			bad := !ok
+			if ok && k.Value != nil {
+				set := map[rune]bool{}
+				for _, ch := range constant.StringVal(k.Value) {
+					if ch != ' ' && ch != '\t' && ch != '\n' && ch != '\r' {
+						set[ch] = true
+					}
+				}
+				bad = len(set) > 1
+			}
+			r.check(!bad, "C19-R2-version", fmt.Sprintf("%s/strings.%s-cutset", fn.Name(), f.Name()), c.pos(ci.Pos()), "single-character or whitespace cutset", "strings."+f.Name()+" is given a cutset of several characters: it removes any run of those characters, not a suffix/prefix")
+		}
+	}
+	r.set("trim_cutset_calls", n)
 }
